@@ -26,15 +26,15 @@ CLAIM = dict(
          "invokes is one bound at namespace construction (str repr fields any all + FUNCTION_WHITELIST, read from the "
          "extracted key lists) or a constructor resolved through the extracted WHITELIST; a call whose target is "
          "anything else is refused before target or arguments are evaluated (state untouched); no attribute whose "
-         "name starts with __ is read; acceptance of a call target never depends on the namespace; the record "
+         "name starts with __ is read, and an unbound __ name is refused before the whitelist-module fallback; acceptance of a call target never depends on the namespace; the record "
          "component of the state is unchanged. Tie: translator (tables + structural flags of the Call/Attribute/"
          "GeneratorExp branches) + hostile-shape grammar on the real engine with canaries, compared with the "
          "model's trace.",
     note="partial: operators, str/repr, iteration and attribute reads run the operands' own special methods (outside "
          "the invariant, as the property says); whitelisted helpers may read any attribute name they are given "
-         "(field_contains(r, ['__class__'], ...)) and a Name that is not in the namespace is looked up on the "
-         "whitelist module object, dunder names included (`__class__` evaluates to the module class; nothing is "
-         "callable through it); record immutability is by construction in the model and checked by observation.",
+         "(field_contains(r, ['__class__'], ...)); a non-dunder Name that is not in the namespace is looked up on the "
+         "whitelist module object (nothing is callable through it); record immutability is by construction in the "
+         "model and checked by observation.",
     technique="Lean 4 invariant proof over an effect trace + hostile-grammar correspondence with canaries",
     design="8/C09")
 RULE = ("case = hostile or benign sub-expression H (shape) placed in a context (bare, comparison, chained comparison, "
@@ -99,7 +99,7 @@ SHAPES = [
     ("dunder:subclasses", "str.__subclasses__()", True), ("dunder:dict", "r.__dict__", True),
     ("dunder:type", "Type.__class__", True), ("dunder:init", "r.c.__init__('x')", True),
     ("dunder:mid", "r.__class__.__mro__", True),
-    # --- a bare double-underscore *name*: not in the namespace, so it is looked up on the whitelist module object
+    # --- a bare double-underscore *name*: not in the namespace; must be refused before the whitelist-module fallback
     ("dundername:class", "__class__", True), ("dundername:dict", "__dict__", True),
     ("dundername:attr", "__class__.gettypename", True), ("dundername:init", "__init__", True),
 ]
@@ -375,10 +375,4 @@ def shrink(case):
             yield {"kind": case["kind"], "shape": label, "ctx": "bare", "src": src, "refused": refused}
 
 
-def m_dunder_name_fallback(case, obs, failure):
-    # a refused-shape expectation failed (nothing was invoked, nothing changed), on a bare dunder Name
-    return (case["shape"].startswith("dundername:") and "error" not in obs and not obs["direct"] and not obs["dunder"]
-            and not obs["tripwire"] and not obs["record_changed"] and not obs["setattr"])
-
-
-MATCHERS = {"dunder_name_fallback": m_dunder_name_fallback}
+MATCHERS = {}
